@@ -195,7 +195,7 @@ func collapseSlashes(s string) string {
 type c13Env map[string][]string
 
 func (e c13Env) expand(v string, depth int) ([]string, error) {
-	if depth > 40 {
+	if depth > 400 { // generated preambles are acyclic: this only guards against a generator fault
 		return nil, fmt.Errorf("too deep")
 	}
 	loc := reRef.FindStringSubmatchIndex(v)
@@ -511,7 +511,13 @@ func TestC13_Replay(t *testing.T) {
 	}
 	ev := NewEv(t, "C13", "replay", "replay of one saved case")
 	ev.Case("replay")
-	if oerr := c13Oracle(c, true); oerr != nil {
+	oerr := c13Oracle(c, true)
+	if oerr == errInconclusive {
+		// the reference parser did not finish on this preamble: judge by the model alone
+		ev.Inconclusive()
+		oerr = c13Oracle(c, false)
+	}
+	if oerr != nil && oerr != errInconclusive {
 		ev.Violate(json.RawMessage(rf.Case), "", "%v", oerr)
 		t.Fatalf("%v", oerr)
 	}
